@@ -494,16 +494,25 @@ Definition rc_entry (s : list N) (pos : N) : rc_entry_res :=
   end.
 
 (* state of the reader while a cross-reference section is read *)
-Record rc_xstate := mkX { x_table : rc_table; x_deleted : list Z; x_warn : bool }.
+(* x_free: the free entries of the section being read; they become deleted_objects only after the whole section
+   (entries, trailer, /XRefStm) has been read *)
+Record rc_xstate := mkX { x_table : rc_table; x_deleted : list Z; x_warn : bool; x_free : list rc_og }.
 
 Definition rc_x_insert (maxid : Z) (st : rc_xstate) (i : Z) (e_f1 : N) (e_f2 : Z) (ty : N) (w : bool) : rc_xstate :=
   if ty =? 102 then
-    (* insertFreeXrefEntry *)
-    mkX (x_table st)
-        (if negb (match rc_lookup (i, e_f2) (x_table st) with Some _ => true | None => false end) && (i <=? maxid)%Z
-         then i :: x_deleted st else x_deleted st)
-        (x_warn st || w)
-  else mkX (rc_insert maxid (x_deleted st) i e_f2 e_f1 (x_table st)) (x_deleted st) (x_warn st || w).
+    (* free_entries.emplace_back(i, f2) *)
+    mkX (x_table st) (x_deleted st) (x_warn st || w) ((i, e_f2) :: x_free st)
+  else mkX (rc_insert maxid (x_deleted st) i e_f2 e_f1 (x_table st)) (x_deleted st) (x_warn st || w) (x_free st).
+
+(* "for (auto const& og: free_entries) insertFreeXrefEntry(og)" at the end of read_xrefTable; x_free is in
+   reverse order of appearance *)
+Definition rc_apply_free (maxid : Z) (st : rc_xstate) : rc_xstate :=
+  mkX (x_table st)
+      (fold_left (fun del og =>
+                    if negb (match rc_lookup og (x_table st) with Some _ => true | None => false end)
+                       && (fst og <=? maxid)%Z
+                    then fst og :: del else del) (rev' (x_free st)) (x_deleted st))
+      (x_warn st) [].
 
 (* the entries of one subsection; Some (state, position after) or None on an invalid entry (state so far kept
    in the second component) *)
@@ -585,7 +594,7 @@ Fixpoint rc_read_xref (fuel : nat) (maxid : Z) (file : list N) (len : N) (off : 
       let skipped := negb (rc_len sp =? 0) in
       let b6 := firstn 6 r in
       if rc_prefix rc_kw_xref b6 && rc_is_space (nth 4 b6 0) then
-        let st1 := mkX (x_table st) (x_deleted st) (x_warn st || skipped) in
+        let st1 := mkX (x_table st) (x_deleted st) (x_warn st || skipped) [] in
         (* buf holds 6 bytes: "xref", the space, and possibly one more space *)
         let skip := if rc_is_space (nth 5 b6 0) then 6 else 5 in
         (* the code passes xref_offset + skip: the white space skipped before "xref" is NOT added *)
@@ -599,14 +608,15 @@ Fixpoint rc_read_xref (fuel : nat) (maxid : Z) (file : list N) (len : N) (off : 
             match dict_get d rc_n_XRefStm with
             | Some _ => mkXR false st2 tr true
             | None =>
+                let st3 := rc_apply_free maxid st2 in
                 match dict_get d rc_n_Prev with
-                | None => mkXR true st2 tr false
+                | None => mkXR true st3 tr false
                 | Some (PInt p) =>
-                    if (p =? 0)%Z then mkXR true st2 tr false
-                    else if (p <? 0)%Z then mkXR false st2 tr true
-                    else if existsb (N.eqb (Z.to_N p)) (off :: visited) then mkXR false st2 tr false
-                    else rc_read_xref f maxid file len (Z.to_N p) (off :: visited) st2 tr
-                | Some _ => mkXR false st2 tr false
+                    if (p =? 0)%Z then mkXR true st3 tr false
+                    else if (p <? 0)%Z then mkXR false st3 tr true
+                    else if existsb (N.eqb (Z.to_N p)) (off :: visited) then mkXR false st3 tr false
+                    else rc_read_xref f maxid file len (Z.to_N p) (off :: visited) st3 tr
+                | Some _ => mkXR false st3 tr false
                 end
             end
         end
@@ -727,6 +737,12 @@ Definition rc_dict_at (file : list N) (len : N) (off : N) : option (list (list N
   | _ => None
   end.
 
+Definition rc_pc_hit (pc : option (rc_og * N)) (og : rc_og) : option N :=
+  match pc with
+  | Some (og', off) => if rc_og_eqb og og' then Some off else None
+  | None => None
+  end.
+
 Definition rc_n_Pages : list N := [80; 97; 103; 101; 115].
 
 (* state while objects are resolved after parse(): the table, whether reconstruction has happened, whether
@@ -734,8 +750,11 @@ Definition rc_n_Pages : list N := [80; 97; 103; 101; 115].
 Record rc_rstate := mkRS { rs_table : rc_table; rs_recon : bool; rs_warned : bool; rs_fatal : bool; rs_root : option rc_og }.
 
 (* resolve(og) as far as a dictionary value is concerned. recon_of () = the reconstructed state *)
-Definition rc_resolve_dict (recover : bool) (file : list N) (len : N) (recon_of : rc_rstate)
+(* pc: the object that read_xrefStream parsed (and cached) at a startxref offset that was no xref table: whatever
+   header stands there decides under which id it is cached, and a cached object is never read again *)
+Definition rc_resolve_dict (recover : bool) (file : list N) (len : N) (pc : option (rc_og * N)) (recon_of : rc_rstate)
                            (st : rc_rstate) (og : rc_og) : rc_rstate * option (list (list N * pobj)) :=
+  match rc_pc_hit pc og with Some off0 => (st, rc_dict_at file len off0) | None =>
   match rc_lookup og (rs_table st) with
   | None => (st, None)
   | Some off =>
@@ -750,15 +769,15 @@ Definition rc_resolve_dict (recover : bool) (file : list N) (len : N) (recon_of 
       else
         (* warned; the object is read anyway and cached under the id found in the file; og itself stays null *)
         (mkRS (rs_table st) (rs_recon st) true (rs_fatal st) (rs_root st), None)
-  end.
+  end end.
 
 (* what parse() and a full resolution of the table do once a table and a trailer are there *)
-Definition rc_after_parse (recover : bool) (file : list N) (len : N) (recon_of : rc_rstate) (st : rc_rstate)
-  : rc_rstate :=
+Definition rc_after_parse (recover : bool) (file : list N) (len : N) (pc : option (rc_og * N))
+                          (recon_of : rc_rstate) (st : rc_rstate) : rc_rstate :=
   match rs_root st with
   | None => mkRS (rs_table st) (rs_recon st) (rs_warned st) true None
   | Some root =>
-      let '(st1, rd) := rc_resolve_dict recover file len recon_of st root in
+      let '(st1, rd) := rc_resolve_dict recover file len pc recon_of st root in
       let root1 := if rs_recon st1 && negb (rs_recon st) then rs_root st1 else rs_root st in
       match rd with
       | None => mkRS (rs_table st1) (rs_recon st1) (rs_warned st1) true root1
@@ -766,7 +785,7 @@ Definition rc_after_parse (recover : bool) (file : list N) (len : N) (recon_of :
           let '(st2, pages_ok) :=
             match dict_get d rc_n_Pages with
             | Some (PRef n g) =>
-                let '(s2, pd) := rc_resolve_dict recover file len recon_of st1 (Z.of_N n, Z.of_N g) in
+                let '(s2, pd) := rc_resolve_dict recover file len pc recon_of st1 (Z.of_N n, Z.of_N g) in
                 (s2, match pd with Some _ => true | None => false end)
             | Some (PDict _) => (st1, true)
             | _ => (st1, false)
@@ -785,14 +804,15 @@ Definition rc_n_Kids : list N := [75; 105; 100; 115].
 
 (* is there a leaf (a dictionary without /Kids) under the page-tree node og: what `m->pages.empty()` decides at
    the end of a reconstruction that happens inside parse() *)
-Fixpoint rc_has_page (fuel : nat) (file : list N) (len : N) (t : rc_table) (og : rc_og) : bool :=
+Fixpoint rc_has_page (fuel : nat) (file : list N) (len : N) (pc : option (rc_og * N)) (t : rc_table) (og : rc_og) : bool :=
   match fuel with
   | O => false
   | S f =>
-      match rc_lookup og t with
+      match (match rc_pc_hit pc og with Some off0 => Some (off0, true) | None =>
+             match rc_lookup og t with Some off => Some (off, false) | None => None end end) with
       | None => false
-      | Some off =>
-          if (off =? 0) || negb (rc_header_ok file len og off) then false else
+      | Some (off, cached) =>
+          if negb cached && ((off =? 0) || negb (rc_header_ok file len og off)) then false else
           match rc_dict_at file len off with
           | None => false
           | Some d =>
@@ -800,7 +820,7 @@ Fixpoint rc_has_page (fuel : nat) (file : list N) (len : N) (t : rc_table) (og :
               | None => true
               | Some (PArr kids) =>
                   existsb (fun k => match k with
-                                    | PRef n g => rc_has_page f file len t (Z.of_N n, Z.of_N g)
+                                    | PRef n g => rc_has_page f file len pc t (Z.of_N n, Z.of_N g)
                                     | PDict _ => true
                                     | _ => false
                                     end) kids
@@ -810,11 +830,11 @@ Fixpoint rc_has_page (fuel : nat) (file : list N) (len : N) (t : rc_table) (og :
       end
   end.
 
-Definition rc_pages_of (file : list N) (len : N) (t : rc_table) (root : option rc_og) : option rc_og :=
+Definition rc_pages_of (file : list N) (len : N) (pc : option (rc_og * N)) (t : rc_table) (root : option rc_og) : option rc_og :=
   match root with
   | None => None
   | Some r =>
-      match rc_lookup r t with
+      match (match rc_pc_hit pc r with Some o => Some o | None => rc_lookup r t end) with
       | None => None
       | Some off =>
           match rc_dict_at file len off with
@@ -828,7 +848,7 @@ Definition rc_view (recover : bool) (file : list N) : rc_result :=
   let len := rc_len file in
   let maxid := Z.min (rc_int_max - 1) (Z.of_N (len / 3)) in
   let sx := rc_startxref file len in
-  let st0 := mkX [] [] false in
+  let st0 := mkX [] [] false [] in
   let xr := if (sx <=? 0)%Z then mkXR false st0 None false
             else rc_read_xref (S (length file)) maxid file len (Z.to_N sx) [] st0 None in
   if xr_ok xr then
@@ -845,18 +865,35 @@ Definition rc_view (recover : bool) (file : list N) : rc_result :=
     (* a reconstruction triggered while resolving keeps the trailer already read *)
     let r := rc_reconstruct maxid file len [] (Some d) in
     let recon_of := mkRS (r_table r) true true (r_fatal r) (r_root r) in
-    let fin := rc_after_parse recover file len recon_of (mkRS t false (x_warn st || size_warn) false (rc_root_of d)) in
+    let fin := rc_after_parse recover file len None recon_of (mkRS t false (x_warn st || size_warn) false (rc_root_of d)) in
     mkRes (rs_fatal fin) (rs_warned fin) (rs_recon fin) (rs_table fin) (rs_root fin) (xr_unsupported xr)
   else
     if recover then
       let r := rc_reconstruct maxid file len (x_deleted (xr_state xr)) (xr_trailer xr) in
       if r_fatal r then mkRes true true true (r_table r) (r_root r) (xr_unsupported xr) else
       let st := mkRS (r_table r) true true false (r_root r) in
-      let fin := rc_after_parse recover file len st st in
+      (* read_xrefStream: the startxref offset was no xref table; if an object header stands there the object is
+         parsed and cached under the id of that header (the table is still empty) *)
+      let pc := if (0 <? sx)%Z && (Z.to_N sx <? len)
+                then match rc_object_start (rc_drop (Z.to_N sx) file) with
+                     | Some og => Some (og, Z.to_N sx)
+                     | None => None
+                     end
+                else None in
+      let fin := rc_after_parse recover file len pc st st in
       (* "unable to find any pages while recovering damaged file" *)
       let no_pages :=
-        match rc_pages_of file len (r_table r) (r_root r) with
-        | Some pg => negb (rc_has_page (S (length (r_table r))) file len (r_table r) pg)
+        match rc_pages_of file len pc (r_table r) (r_root r) with
+        | Some pg =>
+            (* getAllPages: "root of pages tree has no /Kids array" *)
+            negb (match (match rc_pc_hit pc pg with Some o => Some o | None => rc_lookup pg (r_table r) end) with
+                  | Some off => match rc_dict_at file len off with
+                                | Some d => match dict_get d rc_n_Kids with Some (PArr _) => true | _ => false end
+                                | None => true
+                                end
+                  | None => true
+                  end)
+            || negb (rc_has_page (S (length (r_table r))) file len pc (r_table r) pg)
         | None => false
         end in
       mkRes (rs_fatal fin || no_pages) true true (rs_table fin) (rs_root fin) (xr_unsupported xr)
